@@ -352,6 +352,11 @@ func init() {
 			}
 			// invariant after every step: at most one binding per server feature
 			w.StepCheck = func() {
+				// (every third scheduling step: a second binding does not go away by itself, and the
+				// look from outside is the expensive part of a run)
+				if w.Steps%3 != 0 {
+					return
+				}
 				for _, sf := range pr.Servers {
 					sf := sf
 					w.Observe(func() {
